@@ -184,3 +184,20 @@ PLANS["C07"] = Plan(
                 "bare results carry no units; Unit arithmetic through its proved contracts",
 )
 PLANS["C01"].proofs += _MERGING
+
+
+# ------------------------------------------------------------------ C16
+from contracts import accessors as _A   # noqa: E402
+
+PLANS["C16"] = Plan(
+    level="proof",
+    proofs=[("contracts.accessors", n) for n in _A.ALL]
+    + _sel(lambda n: _NONTEMP(n) and n.split("_call_")[0] in ("U_add", "U_multiply", "U_less", "U_divide", "U_maximum"))
+    + [("contracts.handlers", n) for n in _H.ALL if getattr(_H, n).handler in ("take", "einsum", "dot", "around", "clip_impl", "clip")]
+    + ROUTES,
+    trusted_base=BASE_TRUST,
+    explanation="result-class decision proved at the four places it is made (wrap-up of __array_ufunc__ for "
+                "every operand configuration, __getitem__, Unit.__mul__ with data, unyt_quantity.__new__ size "
+                "guard); memory contracts of the accessors (.d/.ndview/ndarray_view views; .v/.value/"
+                "to_ndarray copies) and of the converting routes (fresh memory, input untouched)",
+)
